@@ -539,6 +539,45 @@ def C14_symlink_loop_defeats_upload_containment():
         return os.path.exists(os.path.join(d, "outside", "planted.txt"))
     finally: shutil.rmtree(d)
 
+@witness
+def C05_rule_on_index_file_bypassed_by_directory_url():
+    from nauyaca.server.middleware import CertificateAuthPathRule
+    rules = [CertificateAuthPathRule(prefix="/admin/index.gmi", require_cert=True)]
+    d, root = _tree()
+    try:
+        allowed, _ = _cert_auth_decision(rules, "gemini://h/admin/")
+        served = _static(root, "gemini://h/admin/")
+        return allowed and served.status == 20 and "ADMIN-INDEX" in (served.body or "")
+    finally: shutil.rmtree(d)
+
+@witness
+def C05_file_named_like_a_rule_directory_gets_the_wrong_rule():
+    """rules [(/admin/, public), (/, cert required)] and a regular FILE called 'admin' in the root: its own
+    location /admin is covered only by the catch-all rule, so it must not be delivered without a certificate."""
+    from nauyaca.server.middleware import CertificateAuthPathRule
+    rules = [CertificateAuthPathRule(prefix="/pubdir/", require_cert=False), CertificateAuthPathRule(prefix="/", require_cert=True)]
+    d = tempfile.mkdtemp(dir="/var/tmp", prefix="nvw-")
+    try:
+        root = os.path.join(d, "root"); os.makedirs(root); open(os.path.join(root, "pubdir"), "w").write("FILE-NAMED-PUBDIR")
+        allowed, _ = _cert_auth_decision(rules, "gemini://h/pubdir")
+        served = _static(root, "gemini://h/pubdir")
+        return allowed and served.status == 20 and "FILE-NAMED-PUBDIR" in (served.body or "")
+    finally: shutil.rmtree(d)
+
+@witness
+def C05_climbing_out_of_and_back_into_the_root_bypasses_rules():
+    """document root directory is called 'root': /../root/admin/secret.gmi is served by the handler (the resolved
+    path is inside the root) while the middleware canonicalises it to /root/admin/secret.gmi, which no rule covers."""
+    from nauyaca.server.middleware import CertificateAuthPathRule
+    rules = [CertificateAuthPathRule(prefix="/admin/", require_cert=True)]
+    d, root = _tree()
+    try:
+        url = "gemini://h/../root/admin/secret.gmi"
+        allowed, _ = _cert_auth_decision(rules, url)
+        served = _static(root, url)
+        return allowed and served.status == 20 and "ADMIN-SECRET" in (served.body or "")
+    finally: shutil.rmtree(d)
+
 # MAIN
 if __name__ == "__main__":
     names = sys.argv[1:] or sorted(W)
